@@ -349,6 +349,19 @@ func (m *AuthMonitor) OnTx(h *History, o *TxObs) {
 	}
 	m.ByIntent[intent] = c
 	if !took {
+		// A decodable envelope whose signature does not verify (independent check) must be
+		// refused BY signature verification. Being refused only later (nonce, balance, method)
+		// means the verifier accepted it: with a matching nonce it would have taken effect.
+		if o.Err != nil && intent != "system" {
+			if d := DecodeTx(o.Raw, h.Sc.Doc.ChainContext()); d.EnvelopeOK && !d.SigValid {
+				m.Rep.Count("invalid_signature_envelopes_refused", 1)
+				es := o.Err.Error()
+				if !strings.Contains(es, "signed:") && !strings.Contains(es, "signature") && !strings.Contains(es, "oversized") && !strings.Contains(es, "malformed") {
+					w := txWitness(h, o)
+					m.Rep.Violation("c09/invalid-signature-passed-verification/intent="+intent, "an envelope whose signature does not verify over exactly its bytes under this chain's transaction context was not refused by signature verification but later, with: "+es, w)
+				}
+			}
+		}
 		return
 	}
 	d := DecodeTx(o.Raw, h.Sc.Doc.ChainContext())
